@@ -639,6 +639,11 @@ func (l *LogVal) atT(j *sx.T) *sx.T {
 	return t
 }
 
+// DeclareNilPtr declares the nil-ness predicate of pointers to struct name and the nil pointer itself.
+func DeclareNilPtr(name string) {
+	Declare("zzp:"+name, fmt.Sprintf("(declare-fun isnilp_%s (%s) Bool)\n(declare-const nilp_%s %s)\n(assert (isnilp_%s nilp_%s))", name, name, name, name, name, name))
+}
+
 // offsetOf recognises the terms base, (+ base k) and (+ (+ base k1) k2) with numerals k.
 func offsetOf(j *sx.T, base string) (int64, bool) {
 	if j.IsAtom() {
@@ -1006,6 +1011,10 @@ func (e *Env) call(x *ECall) TV {
 			return TV{T: sx.App("=", v.T, sx.Atom("AnyNull")), Ty: B}
 		case KBytes:
 			return TV{T: sx.Bool(false), Ty: B}
+		case KStruct:
+			// dialect go64: a pointer is identified with its pointee; whether it is nil is a predicate on the value
+			DeclareNilPtr(v.Ty.Name)
+			return TV{T: sx.App("isnilp_"+v.Ty.Name, v.T), Ty: B}
 		}
 		return TV{T: sx.App("isnull", v.T), Ty: B}
 	case x.Fn == "min" || x.Fn == "max":
